@@ -30,6 +30,7 @@ import (
 	mrand "math/rand"
 	"net/http"
 	"net/netip"
+	"os"
 	"regexp"
 	"sort"
 	"strings"
@@ -39,6 +40,7 @@ import (
 	"time"
 
 	"github.com/oauth2-proxy/oauth2-proxy/v7/pkg/clock"
+	"golang.org/x/crypto/bcrypt"
 )
 
 const (
@@ -280,7 +282,8 @@ type c01Shared struct {
 	Old3     map[string]*c01Sess // issued 3 h ago
 	Cross    map[string]*c01Sess // live session of the issuer of that store (wrong kind for the other store)
 	Sib      map[string]*c01Sess
-	Deleted  *c01Sess // redis ticket whose entry was deleted
+	Aged     []*c01Sess // redis sessions issued 3 h ago, one per mid-request-removal history
+	Deleted  *c01Sess   // redis ticket whose entry was deleted
 	Tok      map[string]string
 	// Stale: sessions issued 3 h ago whose ID token lived 2 s and that have no refresh token; index -1 = cookie store
 	// (stateless, shared), otherwise one per Redis-store instance (a refusal removes the entry).
@@ -405,6 +408,9 @@ func c01Setup(run *vfRun, w *vfWorld, cfgs []c01Cfg) *c01Shared {
 		sh.Cross[store] = must(sh.mint(sh.Issuer[store], c01Alice, time.Time{}))
 		sh.Sib[store] = must(sh.mint(sh.Sibling[store], c01Alice, time.Time{}))
 	}
+	for k := 0; k < 4; k++ {
+		sh.Aged = append(sh.Aged, must(sh.mint(sh.Issuer["redis"], c01Alice, now.Add(-3*time.Hour))))
+	}
 	sh.Deleted = must(sh.mint(sh.Issuer["redis"], c01Alice, time.Time{}))
 	if !w.Redis().Del(sh.Deleted.Key) {
 		run.T.Fatalf("c01 set-up: could not delete %s", sh.Deleted.Key)
@@ -433,6 +439,16 @@ func c01Setup(run *vfRun, w *vfWorld, cfgs []c01Cfg) *c01Shared {
 	unv := claims(main, "cid", "sub-b", "bearer@example.com", []string{"g1"}, now.Add(6*time.Hour))
 	unv["email_verified"] = false
 	sh.Tok["unverified-email"] = vfMint(unv, vfMintOpts{})
+	// e-mail not verified, as JSON false and as the string "false" (some providers serialise it that way), from the
+	// provider's issuer and from the extra issuer (which is verified by a different code path)
+	unvs := claims(main, "cid", "sub-b", "bearer@example.com", []string{"g1"}, now.Add(6*time.Hour))
+	unvs["email_verified"] = "false"
+	sh.Tok["unverified-email-string"] = vfMint(unvs, vfMintOpts{})
+	for _, v := range []interface{}{false, "false", "False"} {
+		x := claims(second, "aud2", "sub-x", "bx@example.com", []string{"g1"}, now.Add(6*time.Hour))
+		x["email_verified"] = v
+		sh.Tok[fmt.Sprintf("extra-unverified-email-%T-%v", v, v)] = vfMint(x, vfMintOpts{})
+	}
 	return sh
 }
 
@@ -704,8 +720,19 @@ func c01BuildCreds(run *vfRun, sh *c01Shared, cfg c01Cfg, idx int, p *vfProxy, r
 	add(&c01Cred{Kind: "bearer-valid", How: "JWT signed by the configured issuer for this client, 6 h to live", Auth: "Bearer " + sh.Tok["valid"], Valid: jwtOn, Ident: bearer})
 	add(&c01Cred{Kind: "bearer-valid-foreign-domain", How: "valid JWT whose e-mail/groups fail the rules", Auth: "Bearer " + sh.Tok["valid-unauth"], Valid: jwtOn, Ident: c01Ident{User: "sub-m", Email: "bm@evil.org", Groups: []string{"g9"}}})
 	add(&c01Cred{Kind: "bearer-extra-issuer", How: "JWT signed by the second issuer for audience aud2", Auth: "Bearer " + sh.Tok["extra-valid"], Valid: cfg.JWT == "extra", Ident: c01Ident{User: "sub-x", Email: "bx@example.com", Groups: []string{"g1"}}})
-	for _, k := range []string{"wrongkey", "expired", "wrongaud", "wrongiss", "extra-wrongaud", "extra-expired", "alg-none", "hs256-pubkey", "badsig", "unverified-email"} {
+	for _, k := range []string{"wrongkey", "expired", "wrongaud", "wrongiss", "extra-wrongaud", "extra-expired", "alg-none", "hs256-pubkey", "badsig", "unverified-email", "unverified-email-string"} {
 		add(&c01Cred{Kind: "bearer-" + k, How: "JWT: " + k, Auth: "Bearer " + sh.Tok[k]})
+	}
+	var extraUnv []string
+	for k := range sh.Tok {
+		if strings.HasPrefix(k, "extra-unverified-email-") {
+			extraUnv = append(extraUnv, k)
+		}
+	}
+	sort.Strings(extraUnv)
+	for _, k := range extraUnv {
+		add(&c01Cred{Kind: "bearer-extra-unverified-email", How: "JWT of the extra issuer whose e-mail is not verified: " + k, Auth: "Bearer " + sh.Tok[k]})
+		add(&c01Cred{Kind: "bearer-extra-unverified-email", How: "the same as Basic password: " + k, Auth: c01Basic("anyone", sh.Tok[k])})
 	}
 	add(&c01Cred{Kind: "bearer-not-a-jwt", How: "not a JWT at all", Auth: "Bearer abc.def.ghi"})
 	add(&c01Cred{Kind: "jwt-in-basic", How: "valid JWT as Basic user with empty password", Auth: c01Basic(sh.Tok["valid"], ""), Valid: jwtOn, Ident: bearer})
@@ -1156,11 +1183,190 @@ func c01RunBatch(run *vfRun, sh *c01Shared, cfgs []c01Cfg, base int) {
 	run.Count("ms_requests", time.Since(t2).Milliseconds())
 }
 
+// ---------------------------------------------------------------------------------------------------------
+// histories
+
+// c01PasswordRotation: an htpasswd credential is valid only while it verifies against the file as it is NOW.
+// user:old is used (served), the operator replaces the user's hash (atomic rename), the harness waits (bounded) until
+// user:new validates, then user:old is presented again on every endpoint: it must be refused and never forwarded.
+func c01PasswordRotation(run *vfRun, sh *c01Shared) {
+	hash := func(kind, pw string) string {
+		if kind == "sha" {
+			return c01SHA(pw)
+		}
+		h, err := bcrypt.GenerateFromPassword([]byte(pw), bcrypt.MinCost)
+		if err != nil {
+			run.T.Fatalf("c01: bcrypt: %v", err)
+		}
+		return string(h)
+	}
+	users := []struct{ name, kind string }{{"rot-bcrypt", "bcrypt"}, {"rot-sha", "sha"}, {"rot-removed", "bcrypt"}}
+	fileFor := func(gen int) string {
+		var b strings.Builder
+		b.WriteString("witness:" + hash("bcrypt", fmt.Sprintf("w-%d", gen)) + "\n")
+		for _, u := range users {
+			if u.name == "rot-removed" && gen%2 == 1 {
+				continue // this user disappears in odd generations and comes back with a new password
+			}
+			b.WriteString(u.name + ":" + hash(u.kind, fmt.Sprintf("pw-%s-%d", u.name, gen)) + "\n")
+		}
+		return b.String()
+	}
+	for ii, extra := range [][]string{{"--session-store-type=cookie"}, {"--session-store-type=redis", "--redis-connection-url=" + sh.W.RedisURL(), "--skip-jwt-bearer-tokens=true"}} {
+		path := sh.W.File(fmt.Sprintf("c01-rotation-%d", ii), fileFor(0))
+		p, err := sh.W.NewProxy(append([]string{"--htpasswd-file=" + path, "--upstream=" + sh.W.Up.URL() + "/", "--upstream=" + sh.UpB.URL() + "/b/"}, extra...)...)
+		if err != nil {
+			run.T.Fatalf("c01: rotation instance: %v", err)
+		}
+		served := func(auth, target, method, id string) (bool, *vfResp) {
+			r := p.Do(vfNewReq(method, target, "X-Vf-Id", id, "Authorization", auth))
+			hit := len(sh.W.Up.FindHit(id))+len(sh.UpB.FindHit(id)) > 0
+			return hit || r.Code == 202 || (strings.HasPrefix(target, "/oauth2/userinfo") && r.Code == 200 && strings.TrimSpace(string(r.Body)) != "{}"), r
+		}
+		gens := run.Env.Pick(3, 8)
+		for gen := 0; gen < gens; gen++ {
+			// the current passwords are used (this is what puts them into any cache a validator may keep)
+			for _, u := range users {
+				if u.name == "rot-removed" && gen%2 == 1 {
+					continue
+				}
+				for k, target := range []string{"/x", "/oauth2/auth"} {
+					id := fmt.Sprintf("c01rot-%d-%d-%s-cur-%d", ii, gen, u.name, k)
+					ok, r := served(c01Basic(u.name, fmt.Sprintf("pw-%s-%d", u.name, gen)), target, "GET", id)
+					run.Eval("rotation|current-password|" + u.kind)
+					if !ok {
+						c01Violation(run, "c01:valid-credential-not-served", fmt.Sprintf("htpasswd user %s (%s entry) with the password currently in the file was refused (status %d, generation %d)", u.name, u.kind, r.Code, gen),
+							map[string]interface{}{"flags": p.Flags, "user": u.name, "generation": gen, "status": r.Code})
+					} else {
+						run.Count("rotation_current_password_served", 1)
+					}
+				}
+			}
+			// the operator rotates every password
+			tmp := path + ".tmp"
+			if err := os.WriteFile(tmp, []byte(fileFor(gen+1)), 0o600); err != nil {
+				run.T.Fatalf("c01: %v", err)
+			}
+			if err := os.Rename(tmp, path); err != nil {
+				run.T.Fatalf("c01: %v", err)
+			}
+			visible := false
+			for k := 0; k < 400 && !visible; k++ {
+				if p.Do(vfGET("/oauth2/auth", "Authorization", c01Basic("witness", fmt.Sprintf("w-%d", gen+1)))).Code == 202 {
+					visible = true
+				} else {
+					time.Sleep(25 * time.Millisecond)
+				}
+			}
+			if !visible {
+				run.Eval("")
+				run.Inconclusive("htpasswd reload not visible after 10 s")
+				break
+			}
+			run.Count("rotation_reloads_observed", 1)
+			// every password of every earlier generation is dead now
+			n := 0
+			for _, u := range users {
+				for old := 0; old <= gen; old++ {
+					if u.name == "rot-removed" && old%2 == 1 {
+						continue
+					}
+					auth := c01Basic(u.name, fmt.Sprintf("pw-%s-%d", u.name, old))
+					for _, target := range []string{"/x", "/b/y", "/oauth2/auth", "/oauth2/userinfo"} {
+						for _, method := range []string{"GET", "POST"} {
+							n++
+							id := fmt.Sprintf("c01rot-%d-%d-%s-old%d-%d", ii, gen, u.name, old, n)
+							ok, r := served(auth, target, method, id)
+							run.Eval(fmt.Sprintf("rotation|rotated-away-password|%s|%s|user-present=%v", u.kind, c01EndpointClass(target), !(u.name == "rot-removed" && (gen+1)%2 == 1)))
+							if ok {
+								c01Violation(run, "c01:rotated-away-password-still-accepted", fmt.Sprintf("htpasswd user %s (%s entry): the password of generation %d still opens %s %s after the file was rewritten to generation %d and the reload was observed (status %d)",
+									u.name, u.kind, old, method, target, gen+1, r.Code), map[string]interface{}{"flags": p.Flags, "user": u.name, "password_generation": old, "file_generation": gen + 1,
+									"history": "password used successfully, file rewritten (atomic rename) with a new hash, reload observed with another user's new password, old password presented again", "request": method + " " + target, "status": r.Code})
+							} else if r.Code != 401 && r.Code != 403 {
+								c01Violation(run, "c01:refusal-shape", fmt.Sprintf("rotated-away htpasswd password refused with status %d", r.Code), map[string]interface{}{"flags": p.Flags, "request": method + " " + target, "status": r.Code})
+							} else {
+								run.Count("rotation_old_password_refused", 1)
+							}
+						}
+					}
+					// the sign-in form must not turn it into a session either
+					r := p.Do(vfNewReq("POST", "/oauth2/sign_in").WithBody("application/x-www-form-urlencoded", []byte("username="+u.name+"&password="+fmt.Sprintf("pw-%s-%d", u.name, old))))
+					run.Eval("rotation|rotated-away-password|form")
+					if c01IssuesSession(r) {
+						c01Violation(run, "c01:rotated-away-password-still-accepted", fmt.Sprintf("htpasswd user %s: the sign-in form accepted the password of generation %d after rotation to generation %d", u.name, old, gen+1),
+							map[string]interface{}{"flags": p.Flags, "user": u.name, "password_generation": old, "file_generation": gen + 1, "status": r.Code, "set_cookie": r.SetCookies()})
+					}
+				}
+			}
+		}
+	}
+}
+
+// c01RemovedMidRequest: Redis store with a refresh period; a session old enough to be refreshed is presented while
+// "somebody else" (a sign-out on another connection, played by the RedisFront hook) removes it from Redis between the
+// first load and the re-load under the refresh lock. The credential no longer exists when the decision is taken:
+// the request must not be served and must not revive the session.
+func c01RemovedMidRequest(run *vfRun, sh *c01Shared) {
+	hub := vfNewRedisHub(sh.W.Redis())
+	defer hub.Close()
+	front := hub.Front(0)
+	p, err := sh.W.NewProxy("--session-store-type=redis", "--redis-connection-url="+front.URL("max_retries=0"), "--cookie-refresh=1h", "--upstream="+sh.W.Up.URL()+"/", "--upstream="+sh.UpB.URL()+"/b/")
+	if err != nil {
+		run.T.Fatalf("c01: instance behind the Redis front: %v", err)
+	}
+	for k, target := range []string{"/x", "/oauth2/auth", "/oauth2/userinfo", "/b/y"} {
+		s := sh.Aged[k%len(sh.Aged)]
+		if k >= len(sh.Aged) {
+			sh.restore(s)
+		}
+		var mu sync.Mutex
+		gets, deleted := 0, false
+		hub.SetHooks(func(c *vfRedisCmd) vfRedisDecision {
+			mu.Lock()
+			defer mu.Unlock()
+			if c.Op == "GET" && c.Key == s.Key {
+				gets++
+				if gets == 2 && !deleted {
+					deleted = hub.MR.Del(s.Key) // removed by another connection right before the re-load
+				}
+			}
+			return vfRedisDecision{}
+		}, nil)
+		id := fmt.Sprintf("c01mid-%d", k)
+		r := p.Do(vfGET(target, "X-Vf-Id", id).Cookie(c01CookieName, s.Value))
+		hub.SetHooks(nil, nil)
+		hit := len(sh.W.Up.FindHit(id))+len(sh.UpB.FindHit(id)) > 0
+		served := hit || r.Code == 202 || (strings.HasPrefix(target, "/oauth2/userinfo") && r.Code == 200 && strings.TrimSpace(string(r.Body)) != "{}")
+		mu.Lock()
+		g, d := gets, deleted
+		mu.Unlock()
+		run.Eval("removed-mid-request|" + c01EndpointClass(target))
+		if !d {
+			run.Inconclusive(fmt.Sprintf("the session was not re-loaded under the refresh lock (%d reads of its key): nothing to remove in between", g))
+			continue
+		}
+		run.Count("sessions_removed_mid_request", 1)
+		wit := map[string]interface{}{"flags": p.Flags, "history": "real login 3 h ago (imposed) at an instance sharing secret and Redis; --cookie-refresh=1h; the Redis entry is deleted between the first GET and the GET under the refresh lock",
+			"request": "GET " + target, "status": r.Code, "reads_of_the_key": g, "set_cookie": r.SetCookies(), "key_exists_afterwards": sh.W.Redis().Exists(s.Key)}
+		switch {
+		case r.Panic != "":
+			c01Violation(run, "c01:panic", "request handling panicked: "+vfTrunc(r.Panic, 200), wit)
+		case served:
+			c01Violation(run, "c01:served-after-session-removed", fmt.Sprintf("GET %s was served (status %d) although the session had been removed from Redis before the decision was taken", target, r.Code), wit)
+		case c01IssuesSession(r) || sh.W.Redis().Exists(s.Key):
+			c01Violation(run, "c01:served-after-session-removed", fmt.Sprintf("GET %s was refused (status %d) but the removed session was written back / a new session cookie was handed out", target, r.Code), wit)
+		case r.Code != 401 && r.Code != 403 && !(r.Code == 302 && strings.HasPrefix(r.Location(), sh.W.IdP.Issuer+"/authorize?")):
+			c01Violation(run, "c01:refusal-shape", fmt.Sprintf("session removed mid-request: refused with status %d", r.Code), wit)
+		}
+	}
+}
+
 func TestVerif_C01(t *testing.T) {
 	run := vfNewRun(t, "C01", "exploration")
 	run.SetRule("per instance: every credential state (none; real sessions of 5 identities; tampered/stripped/re-dated/random/garbage cookies; expired; other secret; other store; deleted ticket; CSRF value; wrong name; " +
 		"bearer valid/extra issuer/wrong key/expired/wrong aud/wrong iss/alg none/HS256/bad sig/unverified; JWT in Basic; htpasswd valid/invalid/malformed; form login; two credentials at once) " +
 		"x 9 endpoints x GET/POST/OPTIONS/HEAD x Accept x client address (untrusted, trusted, near-miss); instances = pairwise covering array over (store, jwt, htpasswd, rules, error mode, bypass, lifetime) plus seeded full tuples plus static-upstream instances. " +
+		"histories: htpasswd password rotation (bcrypt/SHA entries, atomic rename, every earlier password must be dead once the reload is observed); a Redis session removed by another connection between the first load and the re-load under the refresh lock. " +
 		"cell = (credential kind, endpoint class, bypass state, store); non-trivial = credential != none or a bypass rule matched")
 	run.Assume("validity of a credential is the harness's bookkeeping of how it was made; margins around lifetimes are hours",
 		"being served because of a bypass alone is counted, not demanded (C15)", "inotify limit: at most 50 htpasswd instances per process")
@@ -1180,6 +1386,12 @@ func TestVerif_C01(t *testing.T) {
 		w.Up.Reset()
 		sh.UpB.Reset()
 	}
+	t0 := time.Now()
+	c01PasswordRotation(run, sh)
+	c01RemovedMidRequest(run, sh)
+	run.Count("ms_histories", time.Since(t0).Milliseconds())
+	w.Up.Reset()
+	sh.UpB.Reset()
 	var names []string
 	for _, c := range cfgs {
 		names = append(names, c.String())
@@ -1197,7 +1409,7 @@ func TestVerif_C01(t *testing.T) {
 	sh.statMu.Unlock()
 	run.Extra("per_credential_kind", stat)
 	// a run that saw (almost) nothing served or nothing refused proves nothing
-	for _, c := range []string{"served_valid_credential", "refused", "served_by_bypass_route", "served_by_bypass_ip", "served_by_bypass_preflight", "refused_by_redirect_to_idp", "wire_requests"} {
+	for _, c := range []string{"served_valid_credential", "refused", "served_by_bypass_route", "served_by_bypass_ip", "served_by_bypass_preflight", "refused_by_redirect_to_idp", "wire_requests", "rotation_old_password_refused", "rotation_current_password_served"} {
 		if run.Counter(c) < 20 && run.Violations() == 0 {
 			fmt.Printf("INCONCLUSIVE property=C01 reason=counter %s=%d: the workload did not exercise this outcome\n", c, run.Counter(c))
 			t.Fail()
